@@ -207,6 +207,8 @@ type World struct {
 	OldEvery int
 	// LastTruncateErr: result of the most recent TruncateChecked
 	LastTruncateErr error
+	// TruncLog: one line per truncation attempt of the scenario (kept whole; the trace is trimmed)
+	TruncLog []string
 	// NearExpiry: the moment the youngest "issued seven days ago less a few seconds" transaction leaves the seven day window
 	NearExpiry time.Time
 }
